@@ -12,7 +12,7 @@ import (
 func init() {
 	register(&Prop{
 		ID:         "C05",
-		Decided:    "(1) the synchronous (processDirectDataSync) and asynchronous (processDirectData) paths are the same pipeline: enrichData -> applyWhereAndAnalytic -> projectDirectRow -> delivery, each stage dominating the next and fed with the previous stage's output, and the only other module calls on the way are the frozen async extras; (2) rows are received from the input buffer only by the single processing goroutine (and the expansion migration), synchronous sinks are invoked inline in slice order (no go / channel hand-off in that loop); (3) a row rejected by WHERE produces nothing: applyWhereAndAnalytic returns keep=false whenever the predicate is false, and projection/delivery are reached only under keep=true; (4) the caller's row is not written (shared with C20, ownmap). Also: the evaluation methods of the shared predicate/expression objects (condition.ExprCondition, expr.Expression) keep no per-evaluation state in the object (no store through the receiver, no receiver-owned address handed to code outside the module). Also: every receive from Stream.dataChan holds dataChanMux (a consumer cannot take a row out of the middle of a buffer migration); no delivered row and no result returned by EmitSync is the caller's own map.",
+		Decided:    "(1) the synchronous (processDirectDataSync) and asynchronous (processDirectData) paths are the same pipeline: enrichData -> applyWhereAndAnalytic -> projectDirectRow -> delivery, each stage dominating the next and fed with the previous stage's output, and the only other module calls on the way are the frozen async extras; (2) rows are received from the input buffer only by the single processing goroutine (and the expansion migration), synchronous sinks are invoked inline in slice order (no go / channel hand-off in that loop); (3) a row rejected by WHERE produces nothing: applyWhereAndAnalytic returns keep=false whenever the predicate is false, and projection/delivery are reached only under keep=true; (4) the caller's row is not written (shared with C20, ownmap). Also: the evaluation methods of the shared predicate/expression objects (condition.ExprCondition, expr.Expression) keep no per-evaluation state in the object (no store through the receiver, no receiver-owned address handed to code outside the module). Also: every receive from Stream.dataChan holds dataChanMux (a consumer cannot take a row out of the middle of a buffer migration); no delivered row and no result returned by EmitSync is the caller's own map. Also: in package functions a failing run of a program obtained from the bridge's process-wide compile cache (compiled against another row's value types) is always followed by the evaluation against the row itself (expr.Eval) before an error is returned (flow/cached-program-failure-falls-back).",
 		NotDecided: "projection values (aliases, nested paths, *), that the result contains exactly the selected columns, history independence of expression caches, order under the asynchronous worker pool (documented as unordered).",
 		Run:        runC05,
 	})
@@ -198,6 +198,7 @@ func runC05(a *A) {
 	a.Rule("whomay/evaluators-read-only", 5, func() { a.ruleEvaluatorsReadOnly() })
 	a.Rule("locks/receive-under-lock", 2, func() { a.ruleReceiveUnderLock() })
 	a.Rule("ownmap/caller-map-not-handed-out", 5, func() { a.ruleCallerMapNotHandedOut() })
+	a.Rule("flow/cached-program-failure-falls-back", 1, func() { a.ruleCachedProgramFailureFallsBack() })
 	a.Rule("flow/sync-sinks-inline", 1, func() {
 		S := a.Named("stream", "Stream")
 		ss := a.FieldOf(S, "syncSinks")
